@@ -282,6 +282,9 @@ func c23(c *engine.Ctx) {
 	c23R4(c, hm)
 	// ---- R5 close discipline
 	c23R5(c)
+	// ---- R7 a container's messages do not share one body (a later element
+	// would overwrite the result an earlier one is about to deliver)
+	c22R5As(c, "C23.R7")
 }
 
 func hex(v int64) string {
